@@ -149,17 +149,24 @@ fn explore_dyn(prop: &str, h: &History, hi: usize, w: usize, r: usize, st: &mut 
             let bytes = match enc {
                 Out::Ok(b) => b,
                 o => {
-                    bad(st, "writer-fails", o.class(), json!({"result": format!("{o:?}")}));
+                    // a writer that fails on a legal history is C03's finding; C07 / C08 speak
+                    // about the bytes that were written and have nothing to look at here
+                    if prop == "C03" || o.is_panic() {
+                        bad(st, "writer-fails", o.class(), json!({"result": format!("{o:?}")}));
+                    }
                     continue;
                 }
             };
-            // the model writes the same bytes
+            // the model writes the same bytes (C03; the other two properties take the bytes the
+            // library wrote as they are)
             st.validated += 1;
             match ref_encode(&ow, &wv) {
                 Ok(mb) if mb.b == bytes => {}
                 other => {
-                    bad(st, "writer-bytes-differ-from-model", "Ok".into(), json!({"library": hex(&bytes), "model": other.map(|b| hex(&b.b)).map_err(|e| format!("{e:?}"))}));
-                    continue;
+                    if prop == "C03" {
+                        bad(st, "writer-bytes-differ-from-model", "Ok".into(), json!({"library": hex(&bytes), "model": other.map(|b| hex(&b.b)).map_err(|e| format!("{e:?}"))}));
+                        continue;
+                    }
                 }
             }
             match prop {
@@ -285,14 +292,16 @@ fn explore_compiled(prop: &str, u: &U, hi: usize, w: usize, r: usize, st: &mut S
         let bytes = match &enc.out {
             Out::Ok(b) => b.clone(),
             o => {
-                bad(st, "writer-fails", o.class(), json!({"result": format!("{o:?}")}));
+                if prop == "C03" || o.is_panic() {
+                    bad(st, "writer-fails", o.class(), json!({"result": format!("{o:?}")}));
+                }
                 continue;
             }
         };
         // derived impl == dynamic driver on the writer side
         let dynb = dyn_encode(&ew.ty, v);
         st.validated += 1;
-        if dynb != Out::Ok(bytes.clone()) {
+        if dynb != Out::Ok(bytes.clone()) && prop == "C03" {
             bad(st, "derived-and-dynamic-driver-bytes-differ", "Ok".into(), json!({"derived": hex(&bytes), "driver": format!("{dynb:?}")}));
             continue;
         }
